@@ -146,7 +146,7 @@ Qed.
 Definition fixed (var : variant) : Prop := v_persist_first var = true /\ v_set_atomic var = true.
 Lemma fixed_repaired : fixed Repaired.  Proof. split; reflexivity. Qed.
 Lemma fixed_pre_e792c74 : fixed FrrDefect.  Proof. split; reflexivity. Qed.
-Lemma fixed_head : fixed Head.  Proof. split; reflexivity. Qed.
+Lemma fixed_pre_audit2 : fixed PreAudit2.  Proof. split; reflexivity. Qed.
 Lemma set_store_fixed var : v_set_atomic var = true -> forall s h p v, set_store var s h p v = set_store Repaired s h p v.
 Proof. intros H s h p v. unfold set_store. rewrite H. reflexivity. Qed.
 
